@@ -7,6 +7,10 @@ pub mod c01;
 pub mod c02;
 pub mod c12;
 pub mod c13;
+pub mod c16;
+pub mod c19;
+pub mod c21;
+pub mod c22;
 pub mod util;
 
 pub type RunFn = fn(&mut Ctx);
@@ -17,6 +21,10 @@ pub const REGISTRY: &[(&str, RunFn, ReplayFn)] = &[
     ("C02", c02::run, c02::replay),
     ("C12", c12::run, c12::replay),
     ("C13", c13::run, c13::replay),
+    ("C16", c16::run, c16::replay),
+    ("C19", c19::run, c19::replay),
+    ("C21", c21::run, c21::replay),
+    ("C22", c22::run, c22::replay),
 ];
 
 pub fn find(id: &str) -> Option<(RunFn, ReplayFn)> {
